@@ -128,11 +128,15 @@ def main(chk):
   class BS(nnx.Variable):
     pass
 
-  class Net(nnx.Module):
+  class Net(nnx.Module):      # (attribute names: the selected name `a` is a substring of the two others - path filters compare whole keys)
     def __init__(self):
       self.a = nnx.Param(jnp.asarray(4.0))
-      self.b = nnx.Param(jnp.asarray(8.0))
-      self.c = BS(jnp.asarray(3.0))
+      self.ba = nnx.Param(jnp.asarray(8.0))
+      self.ca = BS(jnp.asarray(3.0))
+
+    b = property(lambda self: self.ba)
+    c = property(lambda self: self.ca)
+  RN = {'a': 'a', 'b': 'ba', 'c': 'ca'}
 
   for case in opt['exports']:
     cfg = case['cfg']
@@ -149,7 +153,7 @@ def main(chk):
     hand_s = tx.init(hand_p)
     try:
       for g in cfg['gs']:
-        grads = nnx.State({p: nnx.VariableState(nnx.Param, jnp.asarray(float(g * (1 if p == 'a' else 2)))) for p in sel})
+        grads = nnx.State({RN[p]: nnx.VariableState(nnx.Param, jnp.asarray(float(g * (1 if p == 'a' else 2)))) for p in sel})
         o.update(grads)
         gd = {p: jnp.asarray(float(g * (1 if p == 'a' else 2))) for p in sel}
         upd, hand_s = tx.update(gd, hand_s, hand_p)
@@ -180,14 +184,14 @@ def main(chk):
       for g in cfg['gs']:
         ts = ts.apply_gradients(grads={'a': jnp.asarray(float(g)), 'b': jnp.asarray(float(2 * g))})
         gs = jax.tree_util.tree_map(lambda x: x, pstate)
-        gs = nnx.State({'a': nnx.VariableState(nnx.Param, jnp.asarray(float(g))), 'b': nnx.VariableState(nnx.Param, jnp.asarray(float(2 * g)))})
+        gs = nnx.State({'a': nnx.VariableState(nnx.Param, jnp.asarray(float(g))), RN['b']: nnx.VariableState(nnx.Param, jnp.asarray(float(2 * g)))})
         nts = nts.apply_gradients(gs)
       got = {p: float(ts.params[p]) for p in ('a', 'b')}
       if got != {p: want[p] for p in ('a', 'b')} or int(ts.step) != case['step']:
         chk.violation(key + ':TrainState', f'TrainState params {got} step {int(ts.step)}, specification {want} step {case["step"]}', case)
       if float(first.params['a']) != 4.0 or int(first.step) != 0:
         chk.violation(key + ':TrainState', 'apply_gradients modified the old TrainState instance', case)
-      got = {p: float(nts.params[p].value) for p in ('a', 'b')}
+      got = {p: float(nts.params[RN[p]].value) for p in ('a', 'b')}
       if got != {p: want[p] for p in ('a', 'b')} or int(nts.step) != case['step']:
         chk.violation(key + ':nnx.TrainState', f'nnx.TrainState params {got} step {int(nts.step)}, specification {want}', case)
   chk.sample({'spec': 'TrainLoop', 'opt_case': opt['exports'][len(opt['exports']) // 2]})
